@@ -2,18 +2,7 @@ package main
 
 import (
 	"reflect"
-
-	"go.uber.org/dig"
 )
-
-// GarbageSpec: C14 grammar input (see garbage.go).
-type GarbageSpec struct {
-	Seed int64 `json:"seed"`
-}
-
-func (g GarbageSpec) Build(w *World) interface{}       { return nil }
-func (g GarbageSpec) ProvideOpts() []dig.ProvideOption { return nil }
-func (g GarbageSpec) String() string                   { return "garbage" }
 
 func bindPool(idx int, m *mat, body func([]reflect.Value) []reflect.Value) interface{} { return nil }
 func poolName(idx int) string                                                          { return "" }
@@ -24,4 +13,3 @@ func (m *Monitor) checkDot(i int, op *Op, rec *OpRec, verr error) {
 	}
 	m.stats["dot.parsed"]++
 }
-
